@@ -1,6 +1,6 @@
 (* C07 property theorems. This file contains only statements closed by
    [exact lemma] and Print Assumptions. *)
-From V Require Import Common.Base Common.Utf8 C07.LineCol C07.Builder C07.BuilderProofs C07.Vlq C07.SpecMap C07.Mappings C07.VlqProofs C07.MappingsProofs C07.FindProofs C07.JoinProofs.
+From V Require Import Common.Base Common.Utf8 C07.LineCol C07.Builder C07.BuilderProofs C07.LineColAux C07.LineColProofs C07.Vlq C07.SpecMap C07.Mappings C07.VlqProofs C07.MappingsProofs C07.FindProofs C07.JoinProofs.
 
 (* encodeVLQ/DecodeVLQ round trip, every integer, arbitrary trailing bytes *)
 Theorem vlq_roundtrip : forall v rest, DecodeVLQ (encodeVLQ v ++ rest) = Some (v, rest).
@@ -66,3 +66,14 @@ Theorem builder_sorted : forall ts cover evs b fin,
   exists l, spec_decode data = Some l /\ sorted_abs l = true.
 Proof. exact builder_sorted_all. Qed.
 Print Assumptions builder_sorted.
+
+(* The line offset tables built from a source text, looked up the way
+   AddSourceMapping does (binary search + per-line column table), give for
+   every character boundary the true 0-based line and UTF-16 column of that
+   byte offset (CR, LF, CRLF, U+2028, U+2029 line breaks; astral characters
+   count two columns; invalid UTF-8 decodes as Go's range does): every text *)
+Theorem lineoffset_table_is_spec : forall text off,
+  boundary text off ->
+  lookup (GenerateLineOffsetTables text) off = Some (linecol_utf16 text off).
+Proof. exact lineoffset_is_spec. Qed.
+Print Assumptions lineoffset_table_is_spec.
